@@ -24,7 +24,7 @@ def grid(draw, unit, lo, hi):
 def sched_specs(draw, quiet=True, adaptive=False, force_last=False,
                 empty_ok=False, all_quiet_ok=False, precisions=(None,),
                 max_procs=4, steps_ok=True, state_cond=False, twin_ok=False,
-                deep=False):
+                deep=False, emit_steps=(1,)):
     # deep (thorough tier): a third of the cases may have up to two more
     # processes and up to 8 calls
     big = bool(deep) and draw(st.integers(0, 2)) == 0
@@ -88,7 +88,9 @@ def sched_specs(draw, quiet=True, adaptive=False, force_last=False,
         calls[-1]['force'] = True
     t0 = draw(st.sampled_from([0, 0, 0, tval(draw(st.integers(1, 8)))]))
     nsteps = draw(st.integers(0, 2)) if steps_ok else 0
-    spec = {'t0': t0, 'precision': precision, 'emit_step': 1,
+    emit_step = draw(st.sampled_from(list(emit_steps))) \
+        if len(emit_steps) > 1 else emit_steps[0]
+    spec = {'t0': t0, 'precision': precision, 'emit_step': emit_step,
             'procs': procs, 'steps': nsteps, 'calls': calls}
     if any(p.get('cond_state') for p in procs):
         spec['toggle_ts'] = tval(draw(ks))
